@@ -233,7 +233,8 @@ func genC15(r *rand.Rand, w *W) [][]string {
 var domLits = []string{"a.example.com", "b.example.com", "c.example.com", "d.example.com", "e.example.com", "f.example.com",
 	"api.example.com", "example.com", "www.example.com", "localhost", "::1", "example.org", "ab.example.com", "api.example.org"}
 var domPars = []string{"{sub}.example.com", "{sub:[a-z]+}.example.com", "{sub:digit}.example.com", "{-x}.cdn.example.com",
-	"{a}.{b}.example.org", "api.{tld}", "{sub:\\d+}.example.com", "{sub}.example.{tld:[a-z]+}", "s{n:digit}.example.com", "{all}"}
+	"{a}.{b}.example.org", "api.{tld}", "{sub:\\d+}.example.com", "{sub}.example.{tld:[a-z]+}", "s{n:digit}.example.com", "{all}",
+	"{Sub}.Example.NET", "{Name}.cdn.example.net"}
 
 func randCase(r *rand.Rand, s string) string {
 	b := []byte(s)
